@@ -384,6 +384,33 @@ func (reconfStream) Execute(c Case) {
 				obs["visibleafterrefresh"] = hasDevice(cache, "probe.com/live=p")
 			}
 		}
+		if existing != "" {
+			// a Spec file of a final directory is rewritten in place (the directory's own modification time does not
+			// change): a watching cache gets a Write event, a cache without a watcher rescans at every query, a
+			// manually refreshed one sees it at Refresh
+			ip := &specs.Spec{Version: specs.CurrentVersion, Kind: "probe.com/inplace",
+				Devices: []specs.Device{{Name: "p", ContainerEdits: specs.ContainerEdits{Env: []string{"P=2"}}}}}
+			b, _ := json.Marshal(ip)
+			target := filepath.Join(existing, "live.json")
+			if f, err := os.OpenFile(target, os.O_WRONLY|os.O_TRUNC, 0); err == nil {
+				_, _ = f.Write(b)
+				_ = f.Close()
+				seen := false
+				if !finalAuto {
+					_ = cache.Refresh()
+				}
+				for deadline := time.Now().Add(8 * time.Second); time.Now().Before(deadline); time.Sleep(20 * time.Millisecond) {
+					if hasDevice(cache, "probe.com/inplace=p") {
+						seen = true
+						break
+					}
+					if !finalAuto {
+						break
+					}
+				}
+				obs["inplaceseen"] = seen
+			}
+		}
 		for _, d := range reconfDirs[:3] {
 			isFinal := false
 			for _, fd := range finalDirs {
